@@ -28,6 +28,7 @@ type c06Case struct {
 	Part    string `json:"part"` // bitflips | structure | secrets | jwt | mint
 	JWTKey  string `json:"jwt_key,omitempty"`
 	Mints   int    `json:"mints,omitempty"`
+	Chunk   int    `json:"rand_chunk,omitempty"` // mint: the random source returns at most this many bytes per Read
 	// replay of one mutant
 	Kind   string `json:"kind,omitempty"`
 	Mutant string `json:"mutant,omitempty"`
@@ -159,6 +160,10 @@ func c06Run(c c06Case, res *WRes) {
 		c06MintCheck(c, res)
 		return
 	case "jwt":
+		if c.JWTKey == "oct" {
+			c06JWTOct(c, res)
+			return
+		}
 		c06JWT(c, res)
 		return
 	}
@@ -502,8 +507,43 @@ func c06JWT(c c06Case, res *WRes) {
 
 // c06MintCheck: every mint draws >= max(32, entropy) bytes from the random source, embeds
 // exactly the drawn bytes, and consecutive mints never repeat.
+// c06JWTOct: the configured "signing key" is symmetric. A JWT access token is accepted only with an asymmetric
+// algorithm, so nothing minted by the server and nothing forged with the shared key may introspect active.
+func c06JWTOct(c c06Case, res *WRes) {
+	w := NewWorld(Profile{JWTAccess: true, IDKey: "oct"})
+	viol := func(fp, what string, obs any) {
+		res.violate(Violation{Property: "C06", Fingerprint: fp, What: what, Engine: "c06", Case: c, Expected: "rejected", Observed: obs})
+	}
+	o := w.Token(url.Values{"grant_type": {"client_credentials"}, "scope": {"a"}}, w.AuthFor("B"))
+	res.Evals++
+	res.class("jwt-oct:mint:" + o.Class())
+	if tok := o.Str("access_token"); tok != "" {
+		hdr, _, _ := decodeJWT(tok)
+		res.class(fmt.Sprintf("jwt-oct:minted-with-alg:%v", hdr["alg"]))
+		if a, io := w.Active(tok); a {
+			viol("C06/jwt-accepted/symmetric-signing-key/server-minted", fmt.Sprintf("with a symmetric (oct) signing key the server minted a JWT access token (header %v) and accepts it", hdr), io.JSON)
+		}
+	}
+	// forged with the shared key; claims modelled on what the strategy would mint
+	now := w.Now()
+	for _, alg := range []string{"HS256", "HS384", "HS512"} {
+		for _, kid := range []string{"kid-oct", ""} {
+			claims := map[string]any{"iss": IssuerURL, "sub": "B", "client_id": "B", "aud": []string{}, "scp": []string{"a"}, "scope": "a", "exp": now.Add(time.Hour).Unix(), "iat": now.Unix(), "nbf": now.Unix(), "jti": "forged-" + alg}
+			tok := signJWT([]byte(OctKey), alg, kid, claims, nil)
+			res.Evals++
+			a, io := w.Active(tok)
+			res.distinct("jwt-oct|" + alg + "|" + kid)
+			if a {
+				viol("C06/jwt-accepted/symmetric-signing-key/forged-"+alg, "a JWT signed with the symmetric algorithm "+alg+" under the configured (oct) key introspects active", io.JSON)
+			}
+		}
+	}
+	res.note("jwt-oct-checked")
+}
+
 func c06MintCheck(c c06Case, res *WRes) {
 	w := NewWorld(Profile{GlobalSecret: c06S0, HMACHash: c.Hash, TokenEntropy: c.Entropy})
+	w.Rand.Chunk = c.Chunk
 	rec := &recReader{inner: w.Rand}
 	rand.Reader = rec
 	defer func() { rand.Reader = w.Rand }()
@@ -631,14 +671,17 @@ func init() {
 					}
 				}
 				jobs = append(jobs, c06Case{Hash: h, Entropy: e, Part: "mint", Mints: mints})
+				for _, ch := range []int{1, 8, 31} {
+					jobs = append(jobs, c06Case{Hash: h, Entropy: e, Part: "mint", Mints: mints / 10, Chunk: ch})
+				}
 			}
 		}
-		for _, k := range []string{"ec256a", "rsa1", "ec384", "ec521"} {
+		for _, k := range []string{"ec256a", "rsa1", "ec384", "ec521", "oct"} {
 			jobs = append(jobs, c06Case{Part: "jwt", JWTKey: k})
 		}
 		r.Bounds = map[string]any{"hash_functions": []string{"sha512/256 (default)", "sha256", "sha512"}, "token_entropy": entropies, "refresh_lifespans": []string{"30d", "unlimited(-1)"},
 			"kinds": []string{"access token", "refresh token", "authorization code", "device code"}, "mutations": "every single-bit flip of both decoded parts; every truncation; part swaps across all 4 tokens; prefixes; re-encodings; foreign/short secrets; other hash; 8 secret-rotation scenarios",
-			"jwt": "alg none x4 spellings, HS256/384/512 keyed with public key / global secret / empty, 6 foreign keys, 5 payload edits, header edit, every signature bit (every 5th for RSA), truncations, segment games; signing keys ec256a rsa1 ec384 ec521", "mints_per_kind": mints}
+			"jwt": "alg none x4 spellings, HS256/384/512 keyed with public key / global secret / empty, 6 foreign keys, 5 payload edits, header edit, every signature bit (every 5th for RSA), truncations, segment games; signing keys ec256a rsa1 ec384 ec521", "mints_per_kind": mints, "random_source": "full reads, and short reads of at most 1 / 8 / 31 bytes per call (mints/10 each)", "symmetric_signing_key": "oct JWK configured as signing key: server mint + 6 forged HS256/384/512 tokens must all be inactive"}
 		r.Rule = "each mutant of each genuine credential is presented end to end (introspection, refresh, redemption, device poll); accepted => its decoded random part must authenticate against its decoded signature part under a configured >=32-byte secret (reference HMAC); distinct = distinct rejected mutant strings + distinct minted values"
 		r.Assumptions = []string{"strings that decode to exactly the bytes of the genuine token (unused base64 trailing bits) are don't-care", "statistical quality of crypto/rand is assumed; minting is checked structurally through a counting deterministic reader"}
 		res := r.Pool.Do("c06", jobs, r.Deadline)
